@@ -99,6 +99,7 @@ pub struct CapOut {
 
 pub fn run_cap_case(b: &CapBody) -> Result<CapOut, String> {
     ledger_reset();
+    crate::hashers::reset_instances();
     disarm_all();
     let h = b.cfg.hasher;
     let mut a = Inst::new(&b.cfg, b.cfg.ctor, h)?;
@@ -224,6 +225,7 @@ impl Engine for CapEngine {
         // dry run: allocations of try_reserve(m) on the state before step `at`
         let allocs = {
             ledger_reset();
+    crate::hashers::reset_instances();
             let mut t = match Inst::new(&cfg, ctor_b, cfg.hasher) {
                 Ok(t) => t,
                 Err(_) => return,
@@ -367,6 +369,7 @@ pub struct HashOut {
 
 pub fn run_hash_case(b: &HashBody) -> Result<HashOut, String> {
     ledger_reset();
+    crate::hashers::reset_instances();
     disarm_all();
     let mut out = HashOut { fail: None, tie_divergences: 0 };
     // per hasher: the trace of (exact, loose) digests and the first oracle failure / panic, if any
@@ -586,6 +589,7 @@ fn sorted_contents(q: &AnyQ) -> Vec<P3> {
 
 pub fn run_clone_case(b: &CloneBody) -> Result<Option<FailRec>, String> {
     ledger_reset();
+    crate::hashers::reset_instances();
     disarm_all();
     let h = b.cfg.hasher;
     let mut a = Inst::new(&b.cfg, b.cfg.ctor, h)?;
@@ -868,6 +872,7 @@ pub struct FreshBody {
 
 pub fn run_fresh_case(b: &FreshBody) -> Result<Option<FailRec>, String> {
     ledger_reset();
+    crate::hashers::reset_instances();
     disarm_all();
     let h = b.cfg.hasher;
     let mut a = Inst::new(&b.cfg, b.cfg.ctor, h)?;
@@ -1065,6 +1070,7 @@ fn serious(f: &Fail) -> bool {
 
 pub fn run_latent_case(b: &LatentBody, prop: &str, focus: u32) -> Result<Option<FailRec>, String> {
     ledger_reset();
+    crate::hashers::reset_instances();
     disarm_all();
     let h = b.cfg.hasher;
     let mut a = Inst::new(&b.cfg, b.cfg.ctor, h)?;
